@@ -239,114 +239,231 @@ theorem firstRequired_some (d : Dict) (k : String) (h : firstRequired d = some k
 
 /-! ### the stack discipline -/
 
-/-- running any program can only change the newest context (by `update_current_context`) -/
-theorem exec_stack (E : Env) (p : Prog) : ∀ (top : Dict) (rest : List Dict),
-    ∃ top', (exec E (top :: rest) p).stack = top' :: rest := by
+theorem orElse_stack (st : Bool) (h : Heap) (s : List Nat) (r : Res) (hr : r.stack = s) :
+    (orElse st h s r).stack = s := by
+  unfold orElse; split <;> simp [hr]
+
+theorem orElse_touched (st : Bool) (h : Heap) (s : List Nat) (r : Res) (i : Nat)
+    (hi : i ∈ (orElse st h s r).touched) : i ∈ r.touched := by
+  unfold orElse at hi; split at hi
+  · simp at hi
+  · exact hi
+
+theorem orElse_heap (st : Bool) (h h0 : Heap) (s : List Nat) (r : Res) (i : Nat)
+    (h1 : hget h i = hget h0 i) (h2 : i ∉ r.touched → hget r.heap i = hget h0 i)
+    (hi : i ∉ (orElse st h s r).touched) : hget (orElse st h s r).heap i = hget h0 i := by
+  unfold orElse at hi ⊢; split
+  · exact h1
+  · rename_i hst; simp only [hst] at hi; exact h2 hi
+
+/-- **every statement sequence leaves the stack of context objects exactly as it found it** - whatever
+objects are entered (fresh, already active, left before), whatever raises, whatever the callbacks do -/
+theorem exec_stack (E : Env) (p : Prog) : ∀ (h : Heap) (s : List Nat), (exec E h s p).stack = s := by
   induction p with
-  | done => intro top rest; exact ⟨top, rfl⟩
-  | raise => intro top rest; exact ⟨top, rfl⟩
+  | done => intro h s; rfl
+  | raise => intro h s; rfl
   | call id m pos kw caught fails next ih =>
-    intro top rest
+    intro h s
     simp only [exec]
-    split
-    · exact ⟨top, rfl⟩
-    · exact ih top rest
+    exact orElse_stack _ _ _ _ (ih h s)
   | update kv next ih =>
-    intro top rest
-    simp only [exec, updTop]
-    exact ih _ rest
-  | block id ctx body cb next ihb ihc ihn =>
-    intro top rest
-    obtain ⟨c', hc⟩ := ihb (dictOf ctx) (top :: rest)
-    obtain ⟨c'', hc2⟩ := ihc c' (top :: rest)
-    simp only [exec, hc, hc2, List.tail_cons]
-    split
-    · exact ⟨top, rfl⟩
-    · exact ihn top rest
-  | app id pos kw sf body cb next ihb ihc ihn =>
-    intro top rest
-    simp only [exec]
-    split
-    · exact ⟨top, rfl⟩
-    · split
-      · exact ⟨top, rfl⟩
-      · rename_i bound _
-        obtain ⟨c', hc⟩ := ihb [("app_id", (dget bound "app_id").getD Val.none)] (top :: rest)
-        obtain ⟨c'', hc2⟩ := ihc c' (top :: rest)
-        simp only [hc]
-        split
-        · simp only [List.tail_cons]
-          split
-          · exact ⟨top, rfl⟩
-          · exact ihn top rest
-        · simp only [hc2, List.tail_cons]
-          split
-          · exact ⟨top, rfl⟩
-          · exact ihn top rest
-  | attempt body next ihb ihn =>
-    intro top rest
-    obtain ⟨c', hc⟩ := ihb top rest
-    simp only [exec, hc]
-    exact ihn c' rest
-
-/-- `update_current_context` does not occur at the level of this statement sequence
-(it may occur inside nested blocks and their callbacks, where it acts on the block's own context) -/
-def noTopUpdate : Prog → Bool
-  | .done => true
-  | .raise => true
-  | .call _ _ _ _ _ _ next => noTopUpdate next
-  | .update _ _ => false
-  | .block _ _ _ _ next => noTopUpdate next
-  | .app _ _ _ _ _ _ next => noTopUpdate next
-  | .attempt body next => noTopUpdate body && noTopUpdate next
-
-theorem exec_stack_same (E : Env) (p : Prog) : ∀ (top : Dict) (rest : List Dict),
-    noTopUpdate p = true → (exec E (top :: rest) p).stack = top :: rest := by
-  induction p with
-  | done => intro top rest _; rfl
-  | raise => intro top rest _; rfl
-  | call id m pos kw caught fails next ih =>
-    intro top rest h
-    simp only [noTopUpdate] at h
-    simp only [exec]
-    split
-    · rfl
-    · exact ih top rest h
-  | update kv next ih => intro top rest h; simp [noTopUpdate] at h
-  | block id ctx body cb next ihb ihc ihn =>
-    intro top rest h
-    simp only [noTopUpdate] at h
-    obtain ⟨c', hc⟩ := exec_stack E body (dictOf ctx) (top :: rest)
-    obtain ⟨c'', hc2⟩ := exec_stack E cb c' (top :: rest)
-    simp only [exec, hc, hc2, List.tail_cons]
-    split
-    · rfl
-    · exact ihn top rest h
-  | app id pos kw sf body cb next ihb ihc ihn =>
-    intro top rest h
-    simp only [noTopUpdate] at h
+    intro h s
+    cases s with
+    | nil => simp only [exec]; exact ih h []
+    | cons o t => simp only [exec]; exact ih _ _
+  | new o ctx next ih => intro h s; simp only [exec]; exact ih _ _
+  | newApp id o pos kw next ih =>
+    intro h s
     simp only [exec]
     split
     · rfl
     · split
       · rfl
-      · rename_i bound _
-        obtain ⟨c', hc⟩ := exec_stack E body [("app_id", (dget bound "app_id").getD Val.none)] (top :: rest)
-        obtain ⟨c'', hc2⟩ := exec_stack E cb c' (top :: rest)
-        simp only [hc]
-        split
-        · simp only [List.tail_cons]
-          split
-          · rfl
-          · exact ihn top rest h
-        · simp only [hc2, List.tail_cons]
-          split
-          · rfl
-          · exact ihn top rest h
+      · exact ih _ _
+  | enter id o sf body cb next ihb ihc ihn =>
+    intro h s
+    simp only [exec]
+    split
+    · rfl
+    · have hb := ihb h (o :: s)
+      have hc : ∀ sk, (orElse sk (exec E h (o :: s) body).heap (exec E h (o :: s) body).stack
+          (exec E (exec E h (o :: s) body).heap (exec E h (o :: s) body).stack cb)).stack = o :: s := by
+        intro sk; rw [hb]; exact orElse_stack _ _ _ _ (ihc _ _)
+      simp only [hc, List.tail_cons]
+      exact orElse_stack _ _ _ _ (ihn _ _)
   | attempt body next ihb ihn =>
-    intro top rest h
-    simp only [noTopUpdate, Bool.and_eq_true] at h
-    simp only [exec, ihb top rest h.1]
-    exact ihn top rest h.2
+    intro h s
+    simp only [exec, ihb]
+    exact ihn _ _
+
+theorem hget_hset (h : Heap) (o i : Nat) (v : Obj) : hget (hset h o v) i = if o = i then some v else hget h i := rfl
+
+/-- objects that are neither created nor updated on the way are what they were -/
+theorem exec_heap (E : Env) (p : Prog) : ∀ (h : Heap) (s : List Nat) (i : Nat),
+    i ∉ (exec E h s p).touched → hget (exec E h s p).heap i = hget h i := by
+  induction p with
+  | done => intro h s i _; rfl
+  | raise => intro h s i _; rfl
+  | call id m pos kw caught fails next ih =>
+    intro h s i hi
+    simp only [exec] at hi ⊢
+    exact orElse_heap _ _ _ _ _ _ rfl (ih h s i) hi
+  | update kv next ih =>
+    intro h s i hi
+    cases s with
+    | nil => simp only [exec] at hi ⊢; exact ih h [] i hi
+    | cons o t =>
+      simp only [exec, List.mem_cons, not_or] at hi ⊢
+      rw [ih _ _ i hi.2, hget_hset, if_neg (fun e => hi.1 e.symm)]
+  | new o ctx next ih =>
+    intro h s i hi
+    simp only [exec, List.mem_cons, not_or] at hi ⊢
+    rw [ih _ _ i hi.2, hget_hset, if_neg (fun e => hi.1 e.symm)]
+  | newApp id o pos kw next ih =>
+    intro h s i hi
+    simp only [exec] at hi ⊢
+    cases hf : findSig E.sigs E.cls "application" with
+    | none => rfl
+    | some sg =>
+      simp only [hf] at hi ⊢
+      cases hr : (resolve sg pos.length kw (frames h s) >>= bind sg pos) with
+      | error e => rfl
+      | ok bound =>
+        simp only [hr, List.mem_cons, not_or] at hi ⊢
+        rw [ih _ _ i hi.2, hget_hset, if_neg (fun e => hi.1 e.symm)]
+  | enter id o sf body cb next ihb ihc ihn =>
+    intro h s i hi
+    simp only [exec] at hi ⊢
+    split
+    · rfl
+    · rename_i ob ho
+      simp only [ho, List.mem_append, not_or] at hi
+      obtain ⟨⟨hib, hic⟩, hin⟩ := hi
+      have hb := ihb h (o :: s) i hib
+      have hc := orElse_heap _ _ h _ _ i hb (fun hx => (ihc _ _ i hx).trans hb) hic
+      exact orElse_heap _ _ h _ _ i hc (fun hx => (ihn _ _ i hx).trans hc) hin
+  | attempt body next ihb ihn =>
+    intro h s i hi
+    simp only [exec, List.mem_append, not_or] at hi ⊢
+    rw [ihn _ _ i hi.2]
+    exact ihb h s i hi.1
+
+theorem frames_congr (h h' : Heap) (s : List Nat) (hs : ∀ i ∈ s, hget h' i = hget h i) :
+    frames h' s = frames h s := by
+  unfold frames
+  apply List.map_congr_left
+  intro i hi
+  simp only [argsOf, hs i hi]
+
+/-- the arguments in force under a stack none of whose objects was created or updated are what they were -/
+theorem exec_inForce (E : Env) (p : Prog) (h : Heap) (s s0 : List Nat)
+    (hd : ∀ i ∈ (exec E h s p).touched, i ∉ s0) :
+    frames (exec E h s p).heap s0 = frames h s0 :=
+  frames_congr _ _ _ (fun i hi => exec_heap E p h s i (fun ht => hd i ht hi))
+
+/-- `update_current_context` does not occur at the level of this statement sequence
+(it may occur inside nested blocks and their callbacks, where it acts on the object entered there) -/
+def noTopUpdate : Prog → Bool
+  | .done => true
+  | .raise => true
+  | .call _ _ _ _ _ _ next => noTopUpdate next
+  | .update _ _ => false
+  | .new _ _ next => noTopUpdate next
+  | .newApp _ _ _ _ next => noTopUpdate next
+  | .enter _ _ _ _ _ next => noTopUpdate next
+  | .attempt body next => noTopUpdate body && noTopUpdate next
+
+/-- the object names a program creates or enters, at any depth -/
+def oidsOf : Prog → List Nat
+  | .done => []
+  | .raise => []
+  | .call _ _ _ _ _ _ next => oidsOf next
+  | .update _ next => oidsOf next
+  | .new o _ next => o :: oidsOf next
+  | .newApp _ o _ _ next => o :: oidsOf next
+  | .enter _ o _ body cb next => o :: (oidsOf body ++ oidsOf cb ++ oidsOf next)
+  | .attempt body next => oidsOf body ++ oidsOf next
+
+/-- static bound: only objects the program names can be created or updated, and the object on top
+at the start only by an `update_current_context` at the program's own level -/
+theorem touched_subset (E : Env) (p : Prog) : ∀ (h : Heap) (s : List Nat) (i : Nat),
+    i ∈ (exec E h s p).touched → i ∈ oidsOf p ∨ (noTopUpdate p = false ∧ s.head? = some i) := by
+  induction p with
+  | done => intro h s i hi; simp [exec] at hi
+  | raise => intro h s i hi; simp [exec] at hi
+  | call id m pos kw caught fails next ih =>
+    intro h s i hi
+    simp only [exec] at hi
+    simpa [oidsOf, noTopUpdate] using ih h s i (orElse_touched _ _ _ _ _ hi)
+  | update kv next ih =>
+    intro h s i hi
+    cases s with
+    | nil =>
+      simp only [exec] at hi
+      rcases ih h [] i hi with h1 | h1
+      · exact Or.inl (by simpa [oidsOf] using h1)
+      · simp at h1
+    | cons o t =>
+      simp only [exec, List.mem_cons] at hi
+      rcases hi with hi | hi
+      · exact Or.inr ⟨rfl, by simp [hi]⟩
+      · rcases ih _ _ i hi with h1 | h1
+        · exact Or.inl (by simpa [oidsOf] using h1)
+        · exact Or.inr ⟨rfl, h1.2⟩
+  | new o ctx next ih =>
+    intro h s i hi
+    simp only [exec, List.mem_cons] at hi
+    rcases hi with hi | hi
+    · exact Or.inl (by simp [oidsOf, hi])
+    · rcases ih _ _ i hi with h1 | h1
+      · exact Or.inl (by simp [oidsOf, h1])
+      · exact Or.inr (by simpa [noTopUpdate] using h1)
+  | newApp id o pos kw next ih =>
+    intro h s i hi
+    simp only [exec] at hi
+    split at hi
+    · simp at hi
+    · split at hi
+      · simp at hi
+      · simp only [List.mem_cons] at hi
+        rcases hi with hi | hi
+        · exact Or.inl (by simp [oidsOf, hi])
+        · rcases ih _ _ i hi with h1 | h1
+          · exact Or.inl (by simp [oidsOf, h1])
+          · exact Or.inr (by simpa [noTopUpdate] using h1)
+  | enter id o sf body cb next ihb ihc ihn =>
+    intro h s i hi
+    have hb := exec_stack E body h (o :: s)
+    have hc : ∀ sk, (orElse sk (exec E h (o :: s) body).heap (exec E h (o :: s) body).stack
+        (exec E (exec E h (o :: s) body).heap (exec E h (o :: s) body).stack cb)).stack = o :: s := by
+      intro sk; rw [hb]; exact orElse_stack _ _ _ _ (exec_stack E cb _ _)
+    simp only [exec] at hi
+    split at hi
+    · simp at hi
+    · simp only [hc, List.tail_cons, List.mem_append] at hi
+      rcases hi with (hi | hi) | hi
+      · rcases ihb _ _ i hi with h1 | h1
+        · exact Or.inl (by simp [oidsOf, h1])
+        · exact Or.inl (by have := h1.2; simp at this; simp [oidsOf, this])
+      · have hi' := orElse_touched _ _ _ _ _ hi
+        rw [hb] at hi'
+        rcases ihc _ _ i hi' with h1 | h1
+        · exact Or.inl (by simp [oidsOf, h1])
+        · exact Or.inl (by have := h1.2; simp at this; simp [oidsOf, this])
+      · have hi' := orElse_touched _ _ _ _ _ hi
+        rcases ihn _ _ i hi' with h1 | h1
+        · exact Or.inl (by simp [oidsOf, h1])
+        · exact Or.inr ⟨by simpa [noTopUpdate] using h1.1, h1.2⟩
+  | attempt body next ihb ihn =>
+    intro h s i hi
+    simp only [exec, List.mem_append] at hi
+    rcases hi with hi | hi
+    · rcases ihb h s i hi with h1 | h1
+      · exact Or.inl (by simp [oidsOf, h1])
+      · exact Or.inr ⟨by simp [noTopUpdate, h1.1], h1.2⟩
+    · rw [exec_stack] at hi
+      rcases ihn _ s i hi with h1 | h1
+      · exact Or.inl (by simp [oidsOf, h1])
+      · exact Or.inr ⟨by simp [noTopUpdate, h1.1], h1.2⟩
 
 end Rig.C18
